@@ -1045,6 +1045,7 @@ pub fn run(args: &Args) -> i32 {
     let mut total_exec = 0;
     let mut configs = vec![];
     let mut any_capped = false;
+    let mut key_warnings: Vec<String> = vec![];
     for (i, spec) in specs.iter().enumerate() {
         let keycheck = args.opt_usize("keycheck", args.tier.pick(200, 100)) as u64;
         let (stats, found, machinery) = explore::bfs_opt(spec, args.threads, args.seed, per_spec_cap.max(Duration::from_secs(5)), keycheck);
@@ -1054,6 +1055,7 @@ pub fn run(args: &Args) -> i32 {
             }
             mcutil::machinery_error(&format!("exploration of config #{i} ({}) hit a machinery error; no verdict", spec.name()));
         }
+        key_warnings.extend(stats.key_warnings.iter().cloned());
         total_states += stats.states;
         total_tr += stats.transitions;
         total_exec += stats.executions;
@@ -1077,6 +1079,15 @@ pub fn run(args: &Args) -> i32 {
             });
         }
         println!("  config {:<70} states={} transitions={} executions={} capped={}", spec.name(), stats.states, stats.transitions, stats.executions, stats.capped);
+    }
+    if !key_warnings.is_empty() {
+        for w in &key_warnings {
+            eprintln!("KEY-WARNING: {w}");
+        }
+        if rep.n_violation_kinds() == 0 {
+            mcutil::machinery_error("the state key merged states with different futures (see KEY-WARNING above); no verdict");
+        }
+        rep.set("key_warnings", key_warnings.len());
     }
     // end-to-end conformance layer: the same outcomes on the un-intercepted server (real threads, real time)
     if args.opt_usize("e2e", 1) == 1 {
